@@ -461,6 +461,42 @@ func Maven(t *kernel.Tape, k Knobs) *uni.Spec {
 				case 11:
 					rq.Type = []uni.KV{kv(int(dep.MavenDependencyOrigin), "import")}
 				}
+				// A declaration often carries more than one of these: a scope
+				// with exclusions, a classifier with a type, a managed entry
+				// with a scope or exclusions.
+				if t.Bool(1, 4) {
+					has := func(k int) bool {
+						for _, x := range rq.Type {
+							if x.K == k {
+								return true
+							}
+						}
+						return false
+					}
+					add := func(k int, v string) {
+						if !has(k) {
+							rq.Type = append(rq.Type, kv(k, v))
+						}
+					}
+					switch t.Choose(6) {
+					case 0:
+						add(int(dep.Scope), []string{"provided", "runtime", "system"}[t.Choose(3)])
+					case 1:
+						if exclPool != nil {
+							add(int(dep.MavenExclusions), exclPool[t.Choose(len(exclPool))])
+						} else {
+							add(int(dep.MavenExclusions), drawExcl())
+						}
+					case 2:
+						add(int(dep.MavenClassifier), "tests")
+					case 3:
+						add(int(dep.MavenArtifactType), []string{"pom", "test-jar", "jar"}[t.Choose(3)])
+					case 4:
+						add(int(dep.Opt), "")
+					default:
+						add(int(dep.Test), "")
+					}
+				}
 				v.Reqs = append(v.Reqs, rq)
 			}
 			p.Vers = append(p.Vers, v)
@@ -581,6 +617,22 @@ func PyPI(t *kernel.Tape, k Knobs) *uni.Spec {
 	for i := range trip {
 		trip[i] = drawTriples(t, t.Range(1, k.MaxVers), 5)
 	}
+	// Recurring-requirement flavour: a few requirement strings on one of the
+	// first packages (one of them admitting prereleases) are placed by many
+	// versions all over the universe, that package's own dependents included,
+	// so that the same (package, requirement) pair is met from different
+	// roots, through cycles back to a root, and together with other
+	// requirements on the same package.
+	recTarget := -1
+	var recPool []string
+	if t.Bool(1, 5) {
+		recTarget = t.Choose(2)
+		c := trip[recTarget][t.Choose(len(trip[recTarget]))]
+		recPool = append(recPool, fmt.Sprintf(">=%d.%d.%drc1", c.M, c.m, c.p+1), fmt.Sprintf(">=%d.%d.%d", c.M, c.m, c.p+1))
+		if t.Bool(1, 2) {
+			recPool = append(recPool, pypiReq(t, trip[recTarget], t.Choose(len(trip[recTarget]))))
+		}
+	}
 	for i := 0; i < n; i++ {
 		p := uni.Pkg{Name: names[i]}
 		for _, c := range trip[i] {
@@ -595,6 +647,9 @@ func PyPI(t *kernel.Tape, k Knobs) *uni.Spec {
 			for r := 0; r < nr; r++ {
 				tp := pickTarget(t, i, n)
 				rq := uni.Req{Name: names[tp], Req: pypiReq(t, trip[tp], t.Choose(len(trip[tp])))}
+				if recTarget >= 0 && t.Bool(1, 3) {
+					rq = uni.Req{Name: names[recTarget], Req: recPool[t.Choose(len(recPool))]}
+				}
 				if t.Bool(1, 4) {
 					rq.Type = append(rq.Type, kv(int(dep.Environment), pypiMarkers[t.Choose(len(pypiMarkers))]))
 				}
